@@ -111,7 +111,7 @@ func (vc *VC) factsOf(v *Term, t types.Type, alloc *Term, depth int) *Term {
 	case *types.Pointer, *types.Map, *types.Chan:
 		return Bin(sortBool, "<=", v, alloc)
 	case *types.Slice:
-		return And(Bin(sortBool, ">=", sliceLen(v), IntLit(0)), Bin(sortBool, ">=", sliceCap(v), sliceLen(v)),
+		return And(Bin(sortBool, ">=", sliceLen(v), IntLit(0)), Bin(sortBool, ">=", sliceCap(v), sliceLen(v)), Bin(sortBool, "<=", sliceCap(v), IntLit(1<<31)),
 			Bin(sortBool, ">=", sliceOff(v), IntLit(0)), Bin(sortBool, ">=", sliceArr(v), IntLit(0)), Bin(sortBool, "<=", sliceArr(v), alloc),
 			Implies(Eq(sliceArr(v), IntLit(0)), Eq(sliceCap(v), IntLit(0))))
 	case *types.Interface:
